@@ -11,7 +11,7 @@
   is verified separately), `Signal` operations are atomic (they run under its mutex), a thread blocked
   in `Signal::wait` continues only while `signaled` holds (spurious wake-ups only add re-checks).
 
-  `repaired = true`:  reset() { if(swap(_state,0)==1) { _signal.reset(); if(load(_state)) _signal.set(); } }
+  `repaired = true`:  reset() { swap(_state,0); _signal.reset(); if(load(_state)) _signal.set(); }     (fixes 0001 + 0005)
   `repaired = false`: reset() { if(swap(_state,0)==1) _signal.reset(); }          (original code, defect D17)
   `handoff = true`:   a consumer that leaves for good (worker that took a terminate job) calls set() first
 -/
@@ -62,7 +62,7 @@ def stepC (cfg : PCfg) (s : PState) (i : Nat) : Option PState :=
   match s.cons i with
   | .take1 => if s.units > 0 then some { s with units := s.units - 1, cons := updC s.cons i .work }
               else some { s with cons := updC s.cons i .rstX }
-  | .rstX => some { s with st := 0, cons := updC s.cons i (if s.st = 1 then .rstSig else .take2) }
+  | .rstX => some { s with st := 0, cons := updC s.cons i (if cfg.repaired || s.st = 1 then .rstSig else .take2) }
   | .rstSig => some { s with sig := false, cons := updC s.cons i (if cfg.repaired then .rstLoad else .take2) }
   | .rstLoad => some { s with cons := updC s.cons i (if s.st ≠ 0 then .rstSet else .take2) }
   | .rstSet => some { s with sig := true, cons := updC s.cons i .take2 }
